@@ -389,6 +389,22 @@ def discharge(ctx, s, scope=None):
         n = _const_int(ops[1])
         if c is not None and n is not None and c < n:
             return 'constant index %d below constant length %d' % (c, n)
+        # the counter of `for i in k..len(X)` indexes X, or a collection a dominating guard makes as long as X
+        i0 = _strip(ops[0])
+        if i0.tag == 'index' and _strip(i0[1]).tag == 'range':
+            hi = canon(_strip(i0[1])[2])
+            nlen = canon(ops[1])
+            if hi == nlen:
+                return 'index below %s by the bound of its loop' % hi
+            for a in known():
+                if a[0] == 'cmp' and a[1] == 'Eq' and {a[2], a[3]} == {hi, nlen}:
+                    return 'index below %s by the bound of its loop, and %s == %s (dominating guard)' % (hi, hi, nlen)
+            try:
+                for (A, B) in ctx.eng.len_equalities(body, bb):
+                    if {'len(%s)' % canon(A), 'len(%s)' % canon(B)} == {hi, nlen}:
+                        return 'index below %s by the bound of its loop, and %s == %s (dominating guard)' % (hi, hi, nlen)
+            except Exception:
+                pass
     if kind == 'ilog' and len(ops) >= 1:
         x = canon(ops[0])
         for a in known():
